@@ -156,6 +156,7 @@ def main():
     job = json.load(sys.stdin)
     if job['mode'] == 'scenario':
         from specs import scenarios
+        scenarios.PROP = job.get('prop')
         r = scenarios.SCENARIOS[job['scenario']](random.Random(job.get('seed', 0)), job.get('n', 300))
         print(json.dumps(r, default=str))
         return
